@@ -56,6 +56,26 @@ def run(ctx, rep):
     # R1 tokenises with split_string
     ss = tf.calls_to("bytecode::instruction::split_string")
     rep.ob("C18.framing", "the transpiler tokenises arguments with split_string", "ok" if ss else "violated", "", tf.span, fn=tf.path)
+    # ... and what split_string decoded is what the instruction carries into the writer: the `arguments` of every Instruction built from a
+    # line with arguments has that call as its only source (a second assignment - "an all-blank list means no arguments" - silently changes
+    # `" "` into `""`, which the codec composition above cannot see because it composes the reader with the writer directly)
+    n_ins = 0
+    for bi, si, dst, rv, s_ in tf.assigns():
+        if "agg" in rv and rv["agg"].get("adt", "").endswith("bytecode_dev_transpiler::Instruction"):
+            for o in rv["ops"]:
+                l = op_local(o)
+                if l is None or "Box<[" not in tf.locals[l] and "[alloc::string::String]" not in tf.locals[l]:
+                    continue
+                org = rules.origins(tf, l, transparent=rules.TRANSPARENT | {rules.TRY_BRANCH})
+                from_split = {x for x in org if x[0] == "call" and x[1] in {c.bb for c in ss}}
+                if not from_split:
+                    continue        # the argument-less form (`Box::new([])` for a bare instruction name)
+                n_ins += 1
+                other = org - from_split
+                rep.ob("C18.framing", "the arguments split_string decoded reach the binary writer unchanged", "violated" if other else "ok",
+                       ("besides split_string the argument list also comes from %s: some decoded argument lists are replaced before they are written" % sorted(str(x) for x in other))
+                       if other else "", s_.get("sp"), fn=tf.path, key="C18.framing|arguments-unchanged|#%d" % n_ins)
+    rep.floor("C18.framing instructions built from split_string results", n_ins, 1)
     # ... and what it tokenises is the text of the line itself: cut out of the line (split_once / slicing / trimming of line ends), never rewritten
     CUTTING = rules.TRANSPARENT | {"core::str::<impl str>::split_once", "core::str::<impl str>::trim_end", "core::str::<impl str>::trim_start", "core::str::<impl str>::trim",
                                    "core::str::<impl str>::trim_end_matches", "core::str::<impl str>::strip_suffix", "core::str::<impl str>::strip_prefix",
